@@ -17,7 +17,7 @@ meta={
  "confirmed": {
    "existing_suite_with_change": "79 unit tests + 2 doctests pass (cargo test --offline in the scratch worktree)",
    "demo_with_change": "demo/run.sh exits non-zero",
-   "demo_without_change": "demo/run.sh exits 0 (git stash of the source change)",
+   "demo_without_change": "demo/run.sh exits 0 (source change reverted with git apply -R)",
    "how": "tools/try_seed.sh %s (suite, demo both ways, then git -C /repo apply patch.diff; ./check ...; git -C /repo checkout -- .)" % pid,
  },
  "caught_by": [c for c in caught.split() if c],
